@@ -10,6 +10,25 @@ def pattern(seed, n):
     return [(seed * 31 + j * 7 + 1) % 256 for j in range(n)]
 
 
+def gen_pool():
+    from extract import c_eval, src, prev_value, HEADER, GEN
+    import re
+    v = c_eval('#include "MHD_config.h"\n#include "memorypool.c"\n',
+               [("align", "%zu", "(size_t) ALIGN_SIZE"), ("rz", "%zu", "(size_t) _MHD_RED_ZONE_SIZE"),
+                ("szt", "%zu", "sizeof(size_t)"),
+                ("page", "%zu", "(MHD_init_mem_pools_ (), MHD_sys_page_size_)")])
+    m = re.search(r"max\s*<=\s*(\d+)\s*\*\s*1024", src("src/microhttpd/memorypool.c"))
+    thr = str(int(m.group(1)) * 1024) if m else prev_value("Pool.lean", "mmapThreshold", "32768")
+    out = HEADER % "src/microhttpd/memorypool.c" + "namespace Mhd.Gen.Pool\n" \
+        + "def alignSize : Nat := %s\n" % v["align"] \
+        + "def redZone : Nat := %s\n" % v["rz"] \
+        + "def sizeofSizeT : Nat := %s\n" % v["szt"] \
+        + "def pageSize : Nat := %s\n" % v["page"] \
+        + "def mmapThreshold : Nat := %s\n" % thr \
+        + "end Mhd.Gen.Pool\n"
+    return vlib.write_if_changed(os.path.join(GEN, "Pool.lean"), out)
+
+
 class Oracle:
     """Independent statement of C08 over what the real code returned:
     blocks in bounds, aligned, pairwise disjoint; contents preserved; refusal
@@ -200,7 +219,7 @@ class Spec:
                    "arena size < 2^62"]
 
     def gen(self, ctx):
-        extract.gen_pool()
+        gen_pool()
 
     def build(self, ctx):
         self.harness = vlib.cc("h_pool", [os.path.join(vlib.VERIF, "harness/h_pool.c")])
